@@ -336,3 +336,69 @@ func VerifC04_RouteMethod() {
 	}
 	verif.Cover("end")
 }
+
+// VerifC04_RPCRule: header-only (RPC) routes, including the "service" key
+// that selects the fast-match mode: every condition of a route must hold
+// (conjunction), whatever the order of its conditions, and the first such
+// route in configuration order wins.
+func VerifC04_RPCRule() {
+	nr := 1 + verif.Choose("nr", verif.Param("rpcroutes", 2, 3))
+	type cond struct{ k, v string }
+	var rules [][]cond
+	vh := v2.VirtualHost{Name: "vh", Domains: []string{"*"}}
+	for j := 0; j < nr; j++ {
+		var cs []cond
+		switch verif.Choose("shape", 5) {
+		case 0:
+			cs = []cond{{"service", zzLetters("sv", 1, "ST")}}
+		case 1:
+			cs = []cond{{"zone", zzLetters("zv", 1, "ab")}}
+		case 2:
+			cs = []cond{{"service", zzLetters("sv", 1, "ST")}, {"zone", zzLetters("zv", 1, "ab")}}
+		case 3:
+			cs = []cond{{"zone", zzLetters("zv", 1, "ab")}, {"service", zzLetters("sv", 1, "ST")}}
+		default:
+			cs = []cond{{"service", ".*"}, {"zone", zzLetters("zv", 1, "ab")}}
+		}
+		r := v2.Router{}
+		for _, c := range cs {
+			r.Match.Headers = append(r.Match.Headers, v2.HeaderMatcher{Name: c.k, Value: c.v, Regex: c.v == ".*"})
+		}
+		r.Route.ClusterName = "c" + string(rune('0'+j))
+		vh.Routers = append(vh.Routers, r)
+		rules = append(rules, cs)
+	}
+	rs, err := NewRouters(&v2.RouterConfiguration{VirtualHosts: []v2.VirtualHost{vh}})
+	verif.Assume(err == nil)
+	hdr := protocol.CommonHeader{}
+	if verif.Choose("has_service", 2) == 1 {
+		hdr["service"] = zzLetters("req_service", 1, "ST")
+	}
+	if verif.Choose("has_zone", 2) == 1 {
+		hdr["zone"] = zzLetters("req_zone", 1, "ab")
+	}
+	want := ""
+	for j, cs := range rules {
+		all := true
+		for _, c := range cs {
+			v, ok := hdr[c.k]
+			if !ok || (c.v != ".*" && v != c.v) {
+				all = false
+			}
+		}
+		if all {
+			want = "c" + string(rune('0'+j))
+			break
+		}
+	}
+	ctx := variable.NewVariableContext(context.Background())
+	got := ""
+	if r := rs.MatchRoute(ctx, hdr); r != nil {
+		got = r.RouteRule().ClusterName(ctx)
+	}
+	verif.Assert(got == want, "selected RPC route is not the first route all of whose header conditions hold")
+	if want != "" {
+		verif.Cover("matched")
+	}
+	verif.Cover("end")
+}
